@@ -360,3 +360,89 @@ Example C20_example_skew_quantities :
   foot1 ([0; 0; 0], [1; 0; 0]) ([0; 1; 1], [0; 2; 1]) = 0 /\
   foot2 ([0; 0; 0], [1; 0; 0]) ([0; 1; 1], [0; 2; 1]) = -1.
 Proof. exact ray_skew_example. Qed.
+
+(* ====================== TRANSLATOR TIE (Proofs/GenTie*.v) ======================
+   coq/Gen/*.v is the Gallina rendering of the Python source produced by harness/pytrans.py; every run of ./check regenerates it
+   from /repo and compares it function by function with the committed text (evidence: translator_tie).  The theorems below say
+   that the hand-written model (the subject of the theorems above) computes, for ALL inputs satisfying the stated
+   well-formedness, exactly what the translated source computes.  This block stays LAST in the file: its imports shadow
+   model names. *)
+From Coq Require Import List QArith Reals Qreals Lia Lra Arith Bool ZArith.
+From NV Require Import Scalar.Ops Model.Common Model.Basis Model.Knots Model.KnotIns Model.KnotRem Model.LinAlg Model.Degree
+  Gen.Prelude Gen.LinalgInternal Gen.Linalg Gen.Knotvector Gen.Helpers
+  Proofs.GenTieSums Proofs.GenTieLinAlg Proofs.GenTieSubst Proofs.GenTieLU Proofs.GenTieLUSolve Proofs.GenTieKnotRem Proofs.GenTieDegree
+  Proofs.GenTieLib Proofs.GenTieKnots Proofs.GenTieSpan Proofs.GenTieBasis Proofs.GenTieBasisOne
+  Proofs.GenTieDersOne Proofs.GenTieDersLib Proofs.GenTieDers Proofs.GenTieKnotIns.
+Local Open Scope nat_scope.
+
+From NV Require Import Model.Geom2D Model.Voxel Gen.PreludeExt Gen.LinalgGeom Gen.Voxelize Proofs.GenTieGeom Proofs.GenTieVoxel
+  Proofs.GenTieHull.
+
+(* [G] linalg.is_left; wf: the three points have two coordinates (IndexError otherwise) *)
+Theorem C20_gen_is_left_R : forall p0 p1 p2 : list R,
+  2 <= length p0 -> 2 <= length p1 -> 2 <= length p2 ->
+  LinalgGeom.is_left Rops p0 p1 p2 = GOk (Geom2D.is_left Rops p0 p1 p2).
+Proof. exact is_left_tie_R. Qed.
+Print Assumptions C20_gen_is_left_R.
+Theorem C20_gen_is_left_Q : forall p0 p1 p2 : list Q,
+  2 <= length p0 -> 2 <= length p1 -> 2 <= length p2 ->
+  LinalgGeom.is_left Qops p0 p1 p2 = GOk (Geom2D.is_left Qops p0 p1 p2).
+Proof. exact is_left_tie_Q. Qed.
+Print Assumptions C20_gen_is_left_Q.
+
+(* [G] linalg.wn_poly; wf: the point and every vertex have two coordinates; any number of vertices (also none) *)
+Theorem C20_gen_wn_poly_R : forall (pt : list R) (vs : list (list R)),
+  2 <= length pt -> (forall v, In v vs -> 2 <= length v) ->
+  LinalgGeom.wn_poly Rops pt vs = GOk (Geom2D.wn_poly Rops pt vs).
+Proof. exact wn_poly_tie_R. Qed.
+Print Assumptions C20_gen_wn_poly_R.
+Theorem C20_gen_wn_poly_Q : forall (pt : list Q) (vs : list (list Q)),
+  2 <= length pt -> (forall v, In v vs -> 2 <= length v) ->
+  LinalgGeom.wn_poly Qops pt vs = GOk (Geom2D.wn_poly Qops pt vs).
+Proof. exact wn_poly_tie_Q. Qed.
+Print Assumptions C20_gen_wn_poly_Q.
+
+(* [G] _voxelize.is_point_inside_voxel (tol = the `tol` keyword, default 10e-8 = is_point_inside_voxel__default_tol);
+   wf: the voxel is two corners with three coordinates, no point is the empty list (Python: ValueError of vector_dot) *)
+Theorem C20_gen_is_point_inside_voxel_R : forall (tol : R) (bbox pts : list (list R)),
+  wf_voxel bbox -> (forall pt, In pt pts -> pt <> []) ->
+  Voxelize.is_point_inside_voxel Rops bbox pts tol = GOk (Z.of_nat (Voxel.is_point_inside_voxel Rops tol bbox pts)).
+Proof. exact is_point_inside_voxel_tie_R. Qed.
+Print Assumptions C20_gen_is_point_inside_voxel_R.
+Theorem C20_gen_is_point_inside_voxel_Q : forall (tol : Q) (bbox pts : list (list Q)),
+  wf_voxel bbox -> (forall pt, In pt pts -> pt <> []) ->
+  Voxelize.is_point_inside_voxel Qops bbox pts tol = GOk (Z.of_nat (Voxel.is_point_inside_voxel Qops tol bbox pts)).
+Proof. exact is_point_inside_voxel_tie_Q. Qed.
+Print Assumptions C20_gen_is_point_inside_voxel_Q.
+
+(* [G] _voxelize.find_inouts_st; wf: as above for every voxel of the grid *)
+Theorem C20_gen_find_inouts_st_R : forall (tol : R) (grid : list (list (list R))) (pts : list (list R)),
+  (forall bb, In bb grid -> wf_voxel bb) -> (forall pt, In pt pts -> pt <> []) ->
+  Voxelize.find_inouts_st Rops grid pts tol = GOk (map Z.of_nat (Voxel.find_inouts_st Rops tol grid pts)).
+Proof. exact find_inouts_st_tie_R. Qed.
+Print Assumptions C20_gen_find_inouts_st_R.
+Theorem C20_gen_find_inouts_st_Q : forall (tol : Q) (grid : list (list (list Q))) (pts : list (list Q)),
+  (forall bb, In bb grid -> wf_voxel bb) -> (forall pt, In pt pts -> pt <> []) ->
+  Voxelize.find_inouts_st Qops grid pts tol = GOk (map Z.of_nat (Voxel.find_inouts_st Qops tol grid pts)).
+Proof. exact find_inouts_st_tie_Q. Qed.
+Print Assumptions C20_gen_find_inouts_st_Q.
+
+(* [G] linalg.convex_hull (sorted() = the insertion sort py_sorted_pts of Gen/PreludeExt.v, the nested functions cmp / turn /
+   keep_left are local functions of the generated text); wf: every point has two coordinates.  The source decides with
+   ==, < and a three-valued cmp, the model with < only: equal under order_laws (proved for Rops and Qops) *)
+Theorem C20_gen_convex_hull_R : forall pts : list (list R),
+  (forall p, In p pts -> 2 <= length p) -> LinalgGeom.convex_hull Rops pts = GOk (Geom2D.convex_hull Rops pts).
+Proof. exact convex_hull_tie_R. Qed.
+Print Assumptions C20_gen_convex_hull_R.
+Theorem C20_gen_convex_hull_Q : forall pts : list (list Q),
+  (forall p, In p pts -> 2 <= length p) -> LinalgGeom.convex_hull Qops pts = GOk (Geom2D.convex_hull Qops pts).
+Proof. exact convex_hull_tie_Q. Qed.
+Print Assumptions C20_gen_convex_hull_Q.
+
+Example C20_gen_nonvacuous :
+  LinalgGeom.convex_hull Qops [[1; 1]; [0; 0]; [2; 0]; [1; 1#2]; [2; 2]; [0; 2]; [1; 0]; [2; 0]]%Q = GOk [[0; 0]; [2; 0]; [2; 2]; [0; 2]]%Q /\
+  LinalgGeom.wn_poly Qops [1#2; 1#2]%Q [[0; 0]; [1; 0]; [1; 1]; [0; 1]; [0; 0]]%Q = GOk true
+  /\ LinalgGeom.wn_poly Qops [3#2; 1#2]%Q [[0; 0]; [1; 0]; [1; 1]; [0; 1]; [0; 0]]%Q = GOk false
+  /\ Voxelize.find_inouts_st Qops [[[0; 0; 0]; [1; 1; 1]]; [[1; 0; 0]; [2; 1; 1]]]%Q [[3#2; 1#2; 1#2]]%Q (1#100)%Q = GOk [0%Z; 1%Z].
+Proof. repeat split; vm_compute; reflexivity. Qed.
+
